@@ -1060,6 +1060,10 @@ impl DdlExecutor {
 
             for pos in positions {
                 let row = table_btree.get_row_at(pos, table_schema, &snapshot)?;
+                // Let go of the leaf: the tree keeps every page it has touched latched - and with
+                // that pinned in the cache - until told otherwise, and a table with more leaves than
+                // the cache has frames made CREATE INDEX fail with 'out of memory for new frames'.
+                crate::tree::accessor::Accessor::clear(table_btree.accessor_mut()?);
 
                 let Some(row) = row else { continue };
 
